@@ -1,3 +1,5 @@
+import SF.Lemmas.Real
+import Mathlib.Analysis.SpecialFunctions.Exp
 import SF.Lemmas.NoPanic
 import SF.Lemmas.Sma
 import SF.Lemmas.Cum
@@ -269,4 +271,32 @@ theorem div_panics_iff (a b : α) : (∃ e, divF a b = .error e) ↔ b = 0 := by
     simp [this, h, pure, Except.pure]
 end more
 
+end SF.C15
+
+/-! ### Alma's constructor (fix 5b7b627): rejects exactly the kernels with a non-positive end weight -/
+namespace SF.C15
+open SF
+section almaCtor
+variable {β : Type} [Add β] [Sub β] [Mul β] [Div β] [Neg β] [NatCast β] [LT β] [DecidableLT β] [LE β] [DecidableLE β] [BEq β]
+  [FloatLike β] [Transc β]
+
+/-- `Alma::new_custom` panics iff the Gaussian weight of the first or of the last window position is not positive in the
+scalar type (in f32 / f64: underflows to zero) -/
+theorem alma_ctor (N : Nat) (sigma offset : β) :
+    (almaCoreC (α := β) N sigma offset = .error .assertFailed) ↔
+      ¬ (nat 0 < almaWeight (offset * (nat N + nat 1)) (nat N / sigma) 0 ∧
+         nat 0 < almaWeight (offset * (nat N + nat 1)) (nat N / sigma) (N - 1)) := by
+  unfold almaCoreC
+  simp only []
+  split <;> simp_all [pure, Except.pure, throw, throwThe, MonadExceptOf.throw]
+end almaCtor
+
+/-- in real arithmetic no kernel is ever rejected: every Gaussian weight is positive.  The rejection is purely a
+floating-point phenomenon, so every theorem about `almaCore` at ℝ applies to every constructed Alma -/
+theorem alma_ctor_real (N : Nat) (sigma offset : ℝ) : almaCoreC (α := ℝ) N sigma offset = .ok (almaCore N sigma offset) := by
+  unfold almaCoreC
+  simp only []
+  rw [if_pos]
+  · rfl
+  · constructor <;> (simp only [almaWeight, transc_exp_real, nat_eq, Nat.cast_zero]; exact Real.exp_pos _)
 end SF.C15
